@@ -106,7 +106,7 @@ func (r *wrapReader) Read(p []byte) (n int, err error) {
 type c08prop struct{ base }
 
 // CaseCPU: a case enumerates up to several hundred complete stream runs.
-func (p *c08prop) CaseCPU(tier string) int { return 60 }
+func (p *c08prop) CaseCPU(tier string) int { return 120 }
 
 func (p *c08prop) Plan(tier string, seed int64) []core.Segment {
 	m := tierScale(tier, 30)
